@@ -433,127 +433,193 @@ func genProg(R *rand.Rand, i int) wprog {
 	return p
 }
 
+// evalSinkProgram enumerates every sink call index of one program on one kind
+// of sink, in both fault modes; it returns the number of sink calls and the
+// number of bytes of the fault-free output.
+func evalSinkProgram(id string, p wprog, seekable, withModel bool) (int, int) {
+	mk := func(k int, only, record bool) (io.Writer, *fsink) {
+		if seekable {
+			s := &fseeksink{fsink{failK: k, only: only, record: record}}
+			return s, &s.fsink
+		}
+		s := &fsink{failK: k, only: only, record: record}
+		return s, s
+	}
+	w, s := mk(0, false, true)
+	cleanErrs, cleanRB, _ := runProg(w, p)
+	if len(cleanErrs) > 0 {
+		panic(fmt.Sprintf("sink program %v fails without a fault: %v", p, cleanErrs[0]))
+	}
+	total := s.n
+	calls := s.calls
+	beforeClose := s.beforeClose
+	cleanBytes := s.buf
+	
+	deterministic := p.pw == "" && withModel
+	var ops []string
+	if deterministic {
+		if seekable {
+			rs := &recSeekSink{}
+			runProg(rs, p)
+			ops = rs.ops
+		} else {
+			rs := &recSink{}
+			runProg(rs, p)
+			ops = rs.ops
+		}
+		e.Line("cases.txt", "%s.calls S %s", id, strings.Join(ops, " "))
+		e.Line("impl.obs", "%s.calls %s", id, strings.Join(calls, " "))
+	}
+	for _, only := range []bool{false, true} {
+		letters := make([]byte, 0, total)
+		var closeLetters []byte
+		for k := 1; k <= total; k++ {
+			w, s := mk(k, only, false)
+			var errs []error
+			var rb string
+			var closeErr error
+			got := guarded(watchdog, func() (string, error) { errs, rb, closeErr = runProg(w, p); return "", nil })
+			if got.skipped {
+				return total, len(cleanBytes)
+			}
+			surfaced := false
+			for _, err := range errs {
+				if errors.Is(err, errSink) {
+					surfaced = true
+				}
+			}
+			what := strings.TrimRight(calls[k-1], "0123456789")
+			cls := "surfaced"
+			letter := byte('y')
+			switch {
+			case got.timeout:
+				cls, letter = "timeout", 't'
+			case got.panicked != "":
+				cls, letter = "panic", 'p'
+			case !surfaced && len(errs) > 0:
+				cls, letter = "error-without-cause", 'o'
+			case !surfaced && ((deterministic && !bytes.Equal(s.buf, cleanBytes)) || rb != cleanRB):
+				cls, letter = "swallowed-different-output", 'n'
+			case !surfaced && (what == "R" || what == "A"):
+				// a failed read of a read-back that nobody needed (the scanner's
+				// read-ahead): same values read back, same bytes produced
+				cls, letter = "read-fault-same-result", 's'
+			case !surfaced:
+				cls, letter = "swallowed", 'n'
+			}
+			e.Count(s.fired, fmt.Sprintf("sink|%s|%d|%v", id, k, only), fmt.Sprintf("sink/%s/%s", what, cls))
+			if what == "W" || what == "S" || what == "C" {
+				// the model's fault index counts Write, Seek and Close calls only
+				letters = append(letters, letter)
+			}
+			if k > beforeClose && !got.timeout && got.panicked == "" {
+				// a call made by Writer.Close itself: Close must return the error
+				cl := byte('y')
+				if !errors.Is(closeErr, errSink) {
+					cl = 'n'
+					failCapped(fmt.Sprintf("sink:close-result-lacks-sink-error:%s:seekable=%v", what, seekable),
+						fmt.Sprintf("Writer.Close on a %s sink failing %s at sink call #%d/%d (%s), a call made by Close itself: the result of Close does not carry the sink's error (%v)",
+							map[bool]string{true: "seekable", false: "non-seekable"}[seekable], fmName(only), k, total, calls[k-1], closeErr),
+						map[string]any{"program": p.String(), "seekable": seekable, "k": k, "first_call_of_close": beforeClose + 1,
+							"sink_calls_in_clean_run": total, "fault": fmName(only), "failing_sink_call": calls[k-1], "owns_sink": p.owns})
+				}
+				closeLetters = append(closeLetters, cl)
+			}
+			if letter != 'y' && letter != 's' {
+				c := map[string]any{"program": p.String(), "seekable": seekable, "k": k, "sink_calls_in_clean_run": total,
+					"fault": fmName(only), "failing_sink_call": calls[k-1], "errors_returned": len(errs),
+					"output_equals_fault_free_output": bytes.Equal(s.buf, cleanBytes), "read_back_equals_fault_free": rb == cleanRB}
+				if k >= 2 {
+					c["sink_calls_before"] = strings.Join(calls[max(0, k-6):k-1], " ")
+				}
+				if len(errs) > 0 {
+					c["first_error"] = errs[0].Error()
+				}
+				if got.panicked != "" {
+					c["panic"] = got.panicked
+				}
+				failCapped(fmt.Sprintf("sink:%s:%s:seekable=%v", cls, what, seekable),
+					fmt.Sprintf("Writer program on a %s sink failing %s at sink call #%d/%d (%s): no Writer call up to Close returned an error carrying the sink's (%s)",
+						map[bool]string{true: "seekable", false: "non-seekable"}[seekable], fmName(only), k, total, calls[k-1], cls), c)
+			}
+		}
+		if deterministic {
+			e.Line("cases.txt", "%s.%s K %s %s", id, fmName(only), fmName(only), strings.Join(ops, " "))
+			e.Line("impl.obs", "%s.%s %s", id, fmName(only), dash(string(letters)))
+			e.Line("cases.txt", "%s.close.%s L %s %s", id, fmName(only), fmName(only), strings.Join(ops, " "))
+			e.Line("impl.obs", "%s.close.%s %s", id, fmName(only), dash(string(closeLetters)))
+		}
+	}
+	return total, len(cleanBytes)
+}
+
 func sinkSide(R *rand.Rand) {
 	nprog := e.Pick(24, 400)
 	for i := 0; i < nprog; i++ {
 		p := genProg(R, i)
 		for _, seekable := range []bool{false, true} {
-			mk := func(k int, only, record bool) (io.Writer, *fsink) {
-				if seekable {
-					s := &fseeksink{fsink{failK: k, only: only, record: record}}
-					return s, &s.fsink
-				}
-				s := &fsink{failK: k, only: only, record: record}
-				return s, s
-			}
-			w, s := mk(0, false, true)
-			cleanErrs, cleanRB, _ := runProg(w, p)
-			if len(cleanErrs) > 0 {
-				panic(fmt.Sprintf("sink program %v fails without a fault: %v", p, cleanErrs[0]))
-			}
-			total := s.n
-			calls := s.calls
-			beforeClose := s.beforeClose
-			cleanBytes := s.buf
-			id := fmt.Sprintf("w%d.%v", i, seekable)
-			deterministic := p.pw == ""
-			var ops []string
-			if deterministic {
-				if seekable {
-					rs := &recSeekSink{}
-					runProg(rs, p)
-					ops = rs.ops
-				} else {
-					rs := &recSink{}
-					runProg(rs, p)
-					ops = rs.ops
-				}
-				e.Line("cases.txt", "%s.calls S %s", id, strings.Join(ops, " "))
-				e.Line("impl.obs", "%s.calls %s", id, strings.Join(calls, " "))
-			}
-			for _, only := range []bool{false, true} {
-				letters := make([]byte, 0, total)
-				var closeLetters []byte
-				for k := 1; k <= total; k++ {
-					w, s := mk(k, only, false)
-					var errs []error
-					var rb string
-					var closeErr error
-					got := guarded(watchdog, func() (string, error) { errs, rb, closeErr = runProg(w, p); return "", nil })
-					if got.skipped {
-						return
-					}
-					surfaced := false
-					for _, err := range errs {
-						if errors.Is(err, errSink) {
-							surfaced = true
-						}
-					}
-					what := strings.TrimRight(calls[k-1], "0123456789")
-					cls := "surfaced"
-					letter := byte('y')
-					switch {
-					case got.timeout:
-						cls, letter = "timeout", 't'
-					case got.panicked != "":
-						cls, letter = "panic", 'p'
-					case !surfaced && len(errs) > 0:
-						cls, letter = "error-without-cause", 'o'
-					case !surfaced && ((deterministic && !bytes.Equal(s.buf, cleanBytes)) || rb != cleanRB):
-						cls, letter = "swallowed-different-output", 'n'
-					case !surfaced && (what == "R" || what == "A"):
-						// a failed read of a read-back that nobody needed (the scanner's
-						// read-ahead): same values read back, same bytes produced
-						cls, letter = "read-fault-same-result", 's'
-					case !surfaced:
-						cls, letter = "swallowed", 'n'
-					}
-					e.Count(s.fired, fmt.Sprintf("sink|%d|%v|%d|%v", i, seekable, k, only), fmt.Sprintf("sink/%s/%s", what, cls))
-					if what == "W" || what == "S" || what == "C" {
-						// the model's fault index counts Write, Seek and Close calls only
-						letters = append(letters, letter)
-					}
-					if k > beforeClose && !got.timeout && got.panicked == "" {
-						// a call made by Writer.Close itself: Close must return the error
-						cl := byte('y')
-						if !errors.Is(closeErr, errSink) {
-							cl = 'n'
-							failCapped(fmt.Sprintf("sink:close-result-lacks-sink-error:%s:seekable=%v", what, seekable),
-								fmt.Sprintf("Writer.Close on a %s sink failing %s at sink call #%d/%d (%s), a call made by Close itself: the result of Close does not carry the sink's error (%v)",
-									map[bool]string{true: "seekable", false: "non-seekable"}[seekable], fmName(only), k, total, calls[k-1], closeErr),
-								map[string]any{"program": p.String(), "seekable": seekable, "k": k, "first_call_of_close": beforeClose + 1,
-									"sink_calls_in_clean_run": total, "fault": fmName(only), "failing_sink_call": calls[k-1], "owns_sink": p.owns})
-						}
-						closeLetters = append(closeLetters, cl)
-					}
-					if letter != 'y' && letter != 's' {
-						c := map[string]any{"program": p.String(), "seekable": seekable, "k": k, "sink_calls_in_clean_run": total,
-							"fault": fmName(only), "failing_sink_call": calls[k-1], "errors_returned": len(errs),
-							"output_equals_fault_free_output": bytes.Equal(s.buf, cleanBytes), "read_back_equals_fault_free": rb == cleanRB}
-						if k >= 2 {
-							c["sink_calls_before"] = strings.Join(calls[max(0, k-6):k-1], " ")
-						}
-						if len(errs) > 0 {
-							c["first_error"] = errs[0].Error()
-						}
-						if got.panicked != "" {
-							c["panic"] = got.panicked
-						}
-						failCapped(fmt.Sprintf("sink:%s:%s:seekable=%v", cls, what, seekable),
-							fmt.Sprintf("Writer program on a %s sink failing %s at sink call #%d/%d (%s): no Writer call up to Close returned an error carrying the sink's (%s)",
-								map[bool]string{true: "seekable", false: "non-seekable"}[seekable], fmName(only), k, total, calls[k-1], cls), c)
-					}
-				}
-				if deterministic {
-					e.Line("cases.txt", "%s.%s K %s %s", id, fmName(only), fmName(only), strings.Join(ops, " "))
-					e.Line("impl.obs", "%s.%s %s", id, fmName(only), dash(string(letters)))
-					e.Line("cases.txt", "%s.close.%s L %s %s", id, fmName(only), fmName(only), strings.Join(ops, " "))
-					e.Line("impl.obs", "%s.close.%s %s", id, fmName(only), dash(string(closeLetters)))
-				}
+			total, _ := evalSinkProgram(fmt.Sprintf("w%d.%v", i, seekable), p, seekable, true)
+			if aborted() {
+				return
 			}
 			if i < 4 {
 				e.Sample(12, map[string]any{"sink_program": p.String(), "seekable": seekable, "sink_calls": total})
 			}
+		}
+	}
+}
+
+// sweepSide moves every 4096-byte boundary of the Writer's output buffer
+// through every offset of what Writer.Close emits (catalog, Info, cross-reference
+// table or stream object, trailer): one small document per shape, padded by
+// 0, 1, 2, ... bytes until the total length has crossed a buffer boundary by
+// more than the length of the unpadded document.  Each padded program has a
+// handful of sink calls; all of them are enumerated in both fault modes.
+func sweepSide() {
+	type shape struct {
+		v     pdf.Version
+		human bool
+		pw    string
+		owns  bool
+	}
+	shapes := []shape{
+		{pdf.V1_4, false, "", false}, // cross-reference table
+		{pdf.V1_7, false, "", true},  // cross-reference stream, object streams
+		{pdf.V2_0, false, "", false}, // the same with /ID and UTF-8 strings
+		{pdf.V1_7, true, "", false},  // human readable: table, no object streams
+	}
+	if e.Thorough {
+		shapes = append(shapes, shape{pdf.V1_7, false, "u", false}, shape{pdf.V1_3, false, "", true}, shape{pdf.V2_0, true, "", true})
+	}
+	for si, sh := range shapes {
+		mkProg := func(pad int) wprog {
+			return wprog{v: sh.v, human: sh.human, pw: sh.pw, owns: sh.owns,
+				steps: []wstep{{kind: 0, size: 1 + pad, seed: 1}, {kind: 2, size: 40, seed: 3, chunk: 64}}}
+		}
+		for _, seekable := range []bool{false, true} {
+			// length of the unpadded document
+			var base int
+			{
+				w := &fsink{}
+				runProg(w, mkProg(0))
+				base = len(w.buf)
+			}
+			first := 4096 - base - 8
+			if first < 0 {
+				first = 0
+			}
+			n := base + 24
+			step := 1
+			for d := 0; d < n; d += step {
+				pad := first + d
+				id := fmt.Sprintf("sw%d.%v.%d", si, seekable, pad)
+				evalSinkProgram(id, mkProg(pad), seekable, d%16 == 0)
+				if aborted() {
+					return
+				}
+			}
+			e.Sample(16, map[string]any{"sweep_shape": fmt.Sprintf("v=%v human=%v enc=%v owns=%v seekable=%v", sh.v, sh.human, sh.pw != "", sh.owns, seekable),
+				"unpadded_bytes": base, "paddings": n})
 		}
 	}
 }
